@@ -12,4 +12,7 @@ SvgOrder == {"htmlS", "svg0"}
 CssOnly == {"css"}
 CmdIn == {"cmdin"}
 HtmlOnly == {"html0"}
+\* ConcNeg_lazy_*: two goroutines whose FIRST js minification (direct or below html) coincides; ConcNeg_lazy_warm:
+\* one goroutine, two calls - results stay right (Deterministic holds), which is why a reference call made first hides it
+JsCold == {"js", "htmlC"}
 =============================================================================
